@@ -275,6 +275,7 @@ func doVolumeBasedDeletion(ingestNodeDir string, allowedVolumeGB uint64, deletio
 	segmentsToDelete := make(map[string]*structs.SegMeta)
 	metricSegmentsToDelete := make(map[string]*structs.MetricsMeta)
 
+scan:
 	for _, metaEntry := range allEntries {
 		switch entry := metaEntry.(type) {
 		case *structs.MetricsMeta:
@@ -282,14 +283,14 @@ func doVolumeBasedDeletion(ingestNodeDir string, allowedVolumeGB uint64, deletio
 				metricSegmentsToDelete[entry.MSegmentDir] = entry
 				volumeToDeleteInBytes -= entry.BytesReceivedCount
 			} else {
-				break
+				break scan // oldest first: never skip an older segment and delete a newer one
 			}
 		case *structs.SegMeta:
 			if entry.BytesReceivedCount < volumeToDeleteInBytes {
 				segmentsToDelete[entry.SegmentKey] = entry
 				volumeToDeleteInBytes -= entry.BytesReceivedCount
 			} else {
-				break
+				break scan
 			}
 		}
 	}
@@ -507,6 +508,7 @@ func doInodeBasedDeletion(ingestNodeDir string, deletionWarningCounter int) {
 	inodesToFree := usedInodes - targetInodes
 	inodesMarked := uint64(0)
 
+inodeScan:
 	for _, metaEntry := range allEntries {
 		if inodesMarked >= inodesToFree {
 			break
@@ -522,6 +524,8 @@ func doInodeBasedDeletion(ingestNodeDir string, deletionWarningCounter int) {
 			if inodesMarked+uint64(dirInodes) <= inodesToFree {
 				metricSegmentsToDelete[entry.MSegmentDir] = entry
 				inodesMarked += uint64(dirInodes)
+			} else {
+				break inodeScan // oldest first: never skip an older segment and delete a newer one
 			}
 		case *structs.SegMeta:
 			dirInodes, err := calculateSegmentInodeCount(path.Dir(entry.SegmentKey))
@@ -532,6 +536,8 @@ func doInodeBasedDeletion(ingestNodeDir string, deletionWarningCounter int) {
 			if inodesMarked+uint64(dirInodes) <= inodesToFree {
 				segmentsToDelete[entry.SegmentKey] = entry
 				inodesMarked += uint64(dirInodes)
+			} else {
+				break inodeScan
 			}
 		}
 	}
